@@ -15,7 +15,7 @@ class A(Adapter):
     serves = {"C01", "C04", "C05", "C06", "C09", "C10", "C11", "C12"}
     terminate_on_invalid = True
     max_steps = 90
-    ops = ("state", "step", "judge", "instance", "bounds")
+    ops = ("state", "step", "judge", "instance", "bounds", "spec")
     state_fields = ["board", "action_mask"]
 
     def configs(self, tier):
@@ -79,6 +79,18 @@ class A(Adapter):
                                 rng.choice(filled, k_f, replace=False) if k_f else np.zeros(0, int)]).astype(int)
         idx = (cells[:, None] * 9 + np.arange(9)[None, :]).reshape(-1)
         return acts[idx]
+
+    # ---- wave 4 (hook of the C09 / C12 sweeps): declared specs vs the model's obsSpec (both leaves -- the 729-entry action_mask
+    # leaf is not in Gen/Specs.lean --, every configuration), reset timestep, observation arrays (toNValue layout),
+    # obsSpec.valid vs observation_spec.validate and the invariant SpecInv on implementation states at reset, along play (legal
+    # moves and arbitrary in-spec moves) and on the terminal step (harness/wave3_routing.py; theorems sudoku_obsSpec_generated,
+    # sudoku_*_obs_valid, sudoku_specInv_invariant, sudoku_obs_valid_along)
+    def synthetic(self, ctx, cfg, env, runner, rng, drv):
+        import wave3_routing as w3
+
+        w3.check_specs(ctx, self, cfg, env, drv)
+        w3.check_reset_and_obs(ctx, self, cfg, env, runner, rng, drv, 2 if ctx.quick else 6, 6 if ctx.quick else 40,
+                               policies=("masked", "uniform"), extra="spec_inv")
 
     def horizon(self, env):
         g = env._generator
